@@ -151,6 +151,18 @@ func (m *MonC04) AfterTx(o *TxOutcome) {
 					}
 				}
 			}
+			// recorded finding subshare-rule: below one delegator share on (validator, asset) tokens convert to
+			// shares 1:1, so moving n tokens out removes n shares although a share is worth more than a token
+			if k == "undelegate" || k == "redelegate" {
+				if pv := o.Pre.Vals[o.Val]; pv != nil && pv.HasInfo && pk.Val == o.Val {
+					S := decAmount(pv.Info.TotalDelegatorShares, den)
+					if S.IsPositive() && S.TruncateInt().IsZero() {
+						rep.KnownFinding("C04", "subshare-rule", "%s of %s%s from %s whose delegator-share total is %s (< 1): tokens are converted to shares 1:1 and position (%s,%s) changed by %s instead of %s", k, o.Amount, den, w.Name(o.Val), S, w.Name(pk.Del), w.Name(pk.Val), ratStr(diff), ratStr(expect))
+						rep.Class("C04.known.subshare-rule")
+						continue
+					}
+				}
+			}
 			what := "C04.others-untouched"
 			if isActor && expect.Sign() != 0 {
 				what = "C04.actor-amount"
